@@ -481,3 +481,16 @@ def attribute_zoo():
             out.append(("sv", c % ("(* keep *) " + it)))
             out.append(("sv", c % ("int q0; (* a = 1 *) (* b *) " + it)))
     return out
+
+
+def literal_zoo():
+    """Number literals in odd spellings (sizes padded with zeros or holding underscores, blanks around the base, odd digits) --
+    most are not SystemVerilog: whatever the parser accepts must list every byte of the literal in its tree.  -> [("sv", source)]"""
+    out = []
+    for size in ["", "8", "08", "032", "004", "1_0", "0", "00", "0_8", "8_"]:
+        for base in ["'h", "'sb", "'d", "'o", " 'H ", "'Sd ", " 'b"]:
+            for val in ["ff", "1x0z", "0", "17", "_1", "?", "1_", "z"]:
+                out.append(("sv", "module m; assign x = %s%s%s; endmodule\n" % (size, base, val)))
+    for real in ["1.5", "01.5", "1.50e3", "1e-3", "1_0.0_1", "1.", ".5", "1.5E+0_1", "0x1", "1'b1", "'1", "'x", "'Z", "1step", "2.5ns", "02ns", "1_0ps"]:
+        out.append(("sv", "module m; initial #%s x = %s; endmodule\n" % (real, real)))
+    return out
